@@ -69,6 +69,13 @@ func (c13) Gen(r *core.Rng, tier string, idx int) *core.Trace {
 	if big {
 		t.Cfg["pss"] = 4096 // 4 KiB chunks keep the 4 GiB stream at about a million device calls
 	}
+	// GPT partitions do not have to sit in slots 1..n: tables with gaps, where the number of a partition is not its
+	// position in the list
+	base, step := int64(0), int64(1)
+	if kind == 0 && r.Chance(35) {
+		base, step = core.PickOf[int64](r, 0, 1, 3, 100), core.PickOf[int64](r, 1, 2, 5)
+	}
+	slot := func(i int) int64 { return base + 1 + int64(i)*step }
 	var cursor int64 = 64
 	for i := 0; i < n; i++ {
 		var start int64
@@ -98,13 +105,13 @@ func (c13) Gen(r *core.Rng, tier string, idx int) *core.Trace {
 		if big && i == 0 {
 			sectors = (4<<30)/lss + r.Range(0, 3)
 		}
-		t.Ops = append(t.Ops, core.Op{K: "part", A: int64(i + 1), B: start, C: sectors})
+		t.Ops = append(t.Ops, core.Op{K: "part", A: slot(i), B: start, C: sectors})
 		cursor = start + sectors + r.Range(0, 50)
 	}
 	// calls
 	m := 1 + r.Intn(5)
 	for j := 0; j < m; j++ {
-		pi := int64(1 + r.Intn(n))
+		pi := slot(r.Intn(n))
 		switch r.PickW(50, 25, 25) {
 		case 0:
 			rel := int64(0)
@@ -122,7 +129,7 @@ func (c13) Gen(r *core.Rng, tier string, idx int) *core.Trace {
 		case 1:
 			t.Ops = append(t.Ops, core.Op{K: "read", A: pi})
 		case 2:
-			to := int64(1 + r.Intn(n))
+			to := slot(r.Intn(n))
 			t.Ops = append(t.Ops, core.Op{K: "copyraw", A: pi, B: to})
 		}
 	}
